@@ -48,7 +48,7 @@ CLAIMED = {
  "C16": dict(engine="factory", technique="TLC trace validation (T_C16_Recipe, T_C16_SplitterEmits, T_C16_SplitterDone) on recorded runs of real combiner/splitter lines",
    text="Every pallet put by a combiner was taken from in-edge 0 and carries exactly target[i] items taken from in-edge i, nothing else; a splitter puts exactly the contents of the pallet it pulled, each once, then the pallet, before its next pull. Design-level model of combiner/splitter is a growth item; the claim rests on trace validation.",
    ref="5 C16", category="model_checking"),
- "C17": dict(engine="factory", technique="TLC trace validation: ground-truth state-time integrals folded in TLA+ from the call log vs the finalised statistics (T_C17_NonNeg, T_C17_SumT, T_C17_Setup, T_C17_Truth)",
+ "C17": dict(engine="factory", technique="TLC trace validation: ground-truth state-time integrals folded in TLA+ from the call log vs the finalised statistics (T_C17_NonNeg, T_C17_SumT, T_C17_Setup, T_C17_SetupPartial, T_C17_Finalises, T_C17_Truth)",
    text="After finalisation at T (round, non-round, before the first item) the per-state totals are non-negative, partition T (machine: both groups and the occupancy histogram), charge the set-up period, and equal the time the ledger says the node was processing / blocked / idle. Exact on the dyadic time grid.",
    ref="5 C17"),
  "C18": dict(engine="factory", technique="TLC trace validation (T_C18_Counters, T_C18_CounterEvents, T_C18_AvgOccupancy and the interim report T_C18_AvgOccupancyMid with the occupancy integral computed in TLA+, T_C18_CycleTime, T_C18_Monotone, T_C18_CreationStamp)",
